@@ -1602,9 +1602,9 @@ class Parameter(_ParameterBase):
             if ref is not None:
                 # (the task of an asynchronous reference was just scheduled
                 # and has already superseded the previous one)
-                update_ref = partial(self.owner.param._update_ref, name, ref, not is_async)
+                update_ref = partial(obj.param._update_ref, name, ref, not is_async)
             elif name in refs and not syncing:
-                update_ref = partial(self.owner.param._update_ref, name, Undefined)
+                update_ref = partial(obj.param._update_ref, name, Undefined)
             if is_async or val is Undefined:
                 if update_ref is not None:
                     update_ref()
